@@ -8,8 +8,9 @@
    the premises written in each theorem (decoding undoes encoding; a point is 96 bytes; encodings
    are bytes). Nothing is assumed about [cs]. *)
 From Coq Require Import String Ascii List NArith ZArith Bool Lia.
-From Verif Require Import Lib.Bytes Generated.EventSchema Model.Events
-  Proofs.EventsCodec Proofs.Events Proofs.EventsGrammar Proofs.EventsExamples.
+From Verif Require Import Lib.Bytes Generated.EventSchema Model.Events Model.AppEvents
+  Proofs.EventsCodec Proofs.Events Proofs.EventsGrammar Proofs.EventsExamples Proofs.AppEvents.
+From Verif Require Model.App.
 Import ListNotations.
 Open Scope N_scope.
 
@@ -245,3 +246,99 @@ Example C14_smdriver_skips_malformed_nonvacuous :
      (bs "shutter.batch-config-started", [at_ "ConfigIndex" "2"])]
   = Ok [EvBatchConfigStarted bool unit 5 1; EvBatchConfigStarted bool unit 5 2].
 Proof. vm_compute. reflexivity. Qed.
+
+(* ------------------------------------------------------------------------------------ *)
+(* End to end with the application model (Model/App.v).  [to_wire] builds the event struct
+   from the application model's event the way app.go does ([key_of] = crypto.DecompressPubkey,
+   [pt_of] = blst Uncompress, big.Int.SetBytes for apology evaluations), [app_abci_event]
+   writes it with MakeABCIEvent. *)
+
+(* Every well-formed event of the application model (integers uint64, addresses 20 bytes,
+   byte strings bytes, points and key accepted by the dependencies), written by the
+   application, is read by the keyper as exactly that event, with the block height. *)
+Theorem C14_app_events_roundtrip :
+  forall (point key : Type) (cs : bytes -> list bool)
+         (enc_pt : point -> bytes) (dec_pt : bytes -> option point)
+         (enc_key : key -> bytes) (dec_key : bytes -> option key)
+         (pt_of : bytes -> point) (key_of : bytes -> key)
+         (valid_pt valid_key : bytes -> Prop),
+  (forall p, dec_pt (enc_pt p) = Some p) ->
+  (forall p, length (enc_pt p) = pt_len) ->
+  (forall p, bytes_ok (enc_pt p)) ->
+  (forall k, dec_key (enc_key k) = Some k) ->
+  (forall k, bytes_ok (enc_key k)) ->
+  forall (e : App.event) (h : Z),
+  wf_app_event valid_pt valid_key e ->
+  exists a, app_abci_event point key cs enc_pt enc_key pt_of key_of e = Ok a /\
+            make_event point key cs dec_pt dec_key a h
+            = Ok (set_height point key (to_wire point key pt_of key_of e) h).
+Proof. exact app_events_roundtrip. Qed.
+Print Assumptions C14_app_events_roundtrip.
+
+Example C14_app_events_roundtrip_nonvacuous :
+  let e := App.EvPolyCommitment ex_addr1 3 [ex_enc_pt true; ex_enc_pt false] in
+  wf_app_event ex_valid_pt ex_valid_key e /\
+  option_map (fun a => map a_key (snd a))
+             (match ex_app_abci e with Ok a => Some a | _ => None end)
+  = Some [bs "Sender"; bs "Eon"; bs "Gammas"] /\
+  match ex_app_abci e with
+  | Ok a => ex_make_event a 9 = Ok (EvPolyCommitment bool unit 9 3 ex_addr1 [true; false])
+  | _ => False
+  end /\
+  ex_app_abci (App.EvApology ex_addr1 1 [ex_addr2] [[]])
+  = Ok (bs "shutter.apology-registered",
+        [ati "Sender" "0x5AAEb6053f3E94C9b9A09f33669435E7Ef1bEAEd"; ati "Eon" "1";
+         at_ "Accusers" "0x0000000000000000000000000000000000000000"; at_ "PolyEvals" "0x"]).
+Proof.
+  cbv zeta. split.
+  - split; [exact ex_addr1_ok|]. split; [unfold num_ok, u64_max; lia|].
+    constructor; [left; reflexivity|]. constructor; [right; reflexivity|constructor].
+  - repeat split; vm_compute; reflexivity.
+Qed.
+
+(* Every event in every response of the application model, on any run from a valid genesis
+   (keypers are 20-byte addresses) over decoded transactions (signers are 20-byte addresses,
+   message fields are byte strings and uint64, the validity flags of the check-in key and of
+   the gammas are the dependencies' verdicts), for every order in which Go may enumerate its
+   maps, is well formed in the sense of C14_app_events_roundtrip: the application only emits
+   addresses that passed its length checks or are signers / config keypers, gammas that passed
+   the validity check, and the check-in key that passed DecompressPubkey. *)
+Theorem C14_app_emits_wellformed :
+  forall (valid_pt valid_key : bytes -> Prop) (g : App.genesis) (s0 : App.state),
+  genesis_ok g ->
+  App.init_chain g = Some s0 ->
+  forall (cs : list App.call) (es : nat -> App.enumerator) (k : nat),
+  Forall (call_ok valid_pt valid_key) cs ->
+  Forall (response_wf valid_pt valid_key) (snd (App.run_enums es k s0 cs)).
+Proof. exact app_emits_wellformed. Qed.
+Print Assumptions C14_app_emits_wellformed.
+
+Example C14_app_emits_wellformed_nonvacuous :
+  genesis_ok ex_genesis /\ Forall (call_ok ex_valid_pt ex_valid_key) ex_calls /\
+  option_map (fun s => map response_events (snd (App.run App.enum_id s ex_calls)))
+             (App.init_chain ex_genesis)
+  = Some [Some [App.EvBatchConfig 0 1 [ex_addr1; ex_addr2] 0];
+          Some [App.EvCheckIn ex_addr1 ex_enckey];
+          Some [App.EvBatchConfig 5 1 [ex_addr2] 1; App.EvEonStarted 1 5 1];
+          Some []; Some []].
+Proof. split; [exact ex_genesis_ok|]. split; [exact ex_calls_ok|]. vm_compute. reflexivity. Qed.
+
+(* A point the dependency accepted is written back as the very 96 bytes the application
+   received: the Gammas attribute is the hex text of the concatenated message fields. *)
+Theorem C14_app_gammas_text :
+  forall (point : Type) (enc_pt : point -> bytes) (pt_of : bytes -> point)
+         (valid_pt : bytes -> Prop),
+  (forall g, valid_pt g -> enc_pt (pt_of g) = g) ->
+  forall gs, Forall valid_pt gs ->
+  encode_gammas point enc_pt (map pt_of gs) = hex_encode (concat gs).
+Proof. exact app_gammas_text. Qed.
+Print Assumptions C14_app_gammas_text.
+
+Example C14_app_gammas_text_nonvacuous :
+  (forall g, ex_valid_pt g -> ex_enc_pt (ex_pt_of g) = g) /\
+  Forall ex_valid_pt [ex_enc_pt false; ex_enc_pt true] /\
+  length (encode_gammas bool ex_enc_pt (map ex_pt_of [ex_enc_pt false; ex_enc_pt true])) = 384%nat.
+Proof.
+  split; [exact ex_pt_of_canonical|]. split; [|vm_compute; reflexivity].
+  constructor; [right; reflexivity|]. constructor; [left; reflexivity|constructor].
+Qed.
